@@ -442,4 +442,5 @@ RULES = [
     ("C03.PROPAGATE", "quick", rule_propagate),
     ("C03.EXPORTER", "quick", rule_exporter),
     ("C03.RSL", "quick", borrowed("c01", "rule_rsl", "C01.RSL", "C03.RSL")),
+    ("C03.CARRY", "quick", borrowed("c13", "rule_carry", "C13.CARRY", "C03.CARRY")),
 ]
